@@ -54,7 +54,11 @@ impl ViewNode for SsrNode {
         // If `view` is just a single text node, we can just return this node since text nodes are
         // specialized. Otherwise, we must create two marker nodes to represent start and end
         // respectively.
-        if TypeId::of::<U>() == TypeId::of::<String>() {
+        //
+        // The specialized text node renders the `<!--t-->` markers used to hydrate it. Outside of
+        // hydration mode (inside `NoHydrate`) nothing is hydrated, so no markers must be rendered:
+        // the client would mistake them for the markers of its own dynamic nodes.
+        if TypeId::of::<U>() == TypeId::of::<String>() && IS_HYDRATING.get() {
             // TODO: Once the reactive graph is sync, we can replace this with a signal.
             let text = Arc::new(Mutex::new(String::new()));
             create_effect({
@@ -118,7 +122,15 @@ impl ViewHtmlNode for SsrNode {
     }
 
     fn create_marker_node() -> Self {
-        Self::Marker
+        if IS_HYDRATING.get() {
+            Self::Marker
+        } else {
+            // Markers only exist for hydration. Outside of hydration mode (inside `NoHydrate`)
+            // render nothing, so that the client does not adopt them for its own dynamic views.
+            Self::TextStatic {
+                text: Cow::Borrowed(""),
+            }
+        }
     }
 
     fn set_attribute(&mut self, name: Cow<'static, str>, value: StringAttribute) {
